@@ -11,6 +11,7 @@ import (
 	"os"
 	"path/filepath"
 	"runtime"
+	"runtime/debug"
 	"strings"
 	"sync/atomic"
 	"time"
@@ -41,6 +42,8 @@ func init() {
 	if os.Getenv("VERIF_VERBOSE") == "" {
 		log.SetOutput(io.Discard)
 	}
+	// each history allocates a whole server; with the default GOGC about a third of the CPU goes into GC
+	debug.SetGCPercent(400)
 	// osutil.PerkeepConfigDir refuses to guess a directory inside tests
 	os.Setenv("CAMLI_CONFIG_DIR", "/dev/shm/verif-c18-noconfig")
 }
@@ -151,6 +154,7 @@ type Server struct {
 // earlier client call would have done); the cold case is explored separately
 // by the scenario "client-cold-stat".
 func NewServer(c Conf, warm bool) (*Server, error) {
+	atomic.AddInt64(&progress, 1)
 	dir := vk.Scratch("c18-" + c.Name())
 	s := &Server{Conf: c, Dir: dir}
 	if c.Storage != "memory" {
@@ -232,6 +236,30 @@ func (s *Server) Do(req *http.Request) (*http.Response, error) {
 
 var stallDumps int32
 
+// progress counts servers built and closed; StartStallWatch dumps all goroutines to stderr (the shard log)
+// when it has not moved for 45 s. Diagnostic only.
+var progress int64
+
+func StartStallWatch() {
+	go func() {
+		last, since := int64(-1), time.Now()
+		for {
+			time.Sleep(5 * time.Second)
+			cur := atomic.LoadInt64(&progress)
+			if cur != last {
+				last, since = cur, time.Now()
+				continue
+			}
+			if time.Since(since) > 45*time.Second && atomic.AddInt32(&stallDumps, 1) <= 2 {
+				buf := make([]byte, 8<<20)
+				buf = buf[:runtime.Stack(buf, true)]
+				fmt.Fprintf(os.Stderr, "C18-STALL: no server built or closed for 45s; goroutines:\n%s\n", buf)
+				since = time.Now()
+			}
+		}
+	}()
+}
+
 // quiesce waits until the sync-to-index handler reports nothing left to copy,
 // so that closing the index below cannot race with a background copy.
 func (s *Server) quiesce() {
@@ -273,6 +301,7 @@ func (s *Server) quiesce() {
 }
 
 func (s *Server) Close() {
+	defer atomic.AddInt64(&progress, 1)
 	if s.TS != nil {
 		s.quiesce()
 	}
